@@ -1,18 +1,85 @@
 package simrt
 
+import (
+	"reflect"
+	"sync"
+	"sync/atomic"
+	"time"
+)
+
 // Generic wrappers used by the instrumenter for channel operations.
+
+// Foreign channels.  A channel made by instrumented code while no simulation runs (a package-level
+// variable initialised at program start, e.g. the slot channel of a package-level TaskRunner) belongs
+// to no synctest bubble: a task blocked on it is not "durably blocked", synctest.Wait would never
+// return and the run would hang in real time.  The instrumenter routes every `make(chan ...)` through
+// MadeChan, which remembers the channels made outside a simulation; operations that would block on
+// such a channel poll it in virtual time instead (1 ms, doubling up to 1 min), so that a task stuck on
+// it shows up as late / stuck in virtual time like any other blocked task.
+var (
+	foreignChans sync.Map // channel pointer (uintptr) -> struct{}
+	nForeign     atomic.Int64
+)
+
+// MadeChan is the identity; it registers channels made outside a simulation.
+func MadeChan[C any](c C) C {
+	if active() == nil {
+		v := reflect.ValueOf(c)
+		if v.Kind() == reflect.Chan && !v.IsNil() {
+			if _, loaded := foreignChans.LoadOrStore(v.Pointer(), struct{}{}); !loaded {
+				nForeign.Add(1)
+			}
+		}
+	}
+	return c
+}
+
+func isForeign(c any) bool {
+	if nForeign.Load() == 0 {
+		return false
+	}
+	v := reflect.ValueOf(c)
+	if v.Kind() != reflect.Chan || v.IsNil() {
+		return false
+	}
+	_, ok := foreignChans.Load(v.Pointer())
+	return ok
+}
+
+// pollPause is the virtual-time pause between two attempts on a foreign channel.
+func pollPause(d *time.Duration) {
+	if *d == 0 {
+		*d = time.Millisecond
+	}
+	Sleep(*d)
+	if *d < time.Minute {
+		*d *= 2
+	}
+}
 
 // Recv is `<-c`.
 func Recv[C ~chan T | ~<-chan T, T any](site string, c C) T {
-	t := Pre(site)
-	v := <-c
-	Post(t)
+	v, _ := Recv2(site, c)
 	return v
 }
 
 // Recv2 is `v, ok := <-c`.
 func Recv2[C ~chan T | ~<-chan T, T any](site string, c C) (T, bool) {
 	t := Pre(site)
+	if t != nil && isForeign(c) {
+		var d time.Duration
+		for {
+			select {
+			case v, ok := <-c:
+				Post(t)
+				return v, ok
+			default:
+			}
+			Post(t)
+			pollPause(&d)
+			t = Pre(site)
+		}
+	}
 	v, ok := <-c
 	Post(t)
 	return v, ok
@@ -20,9 +87,7 @@ func Recv2[C ~chan T | ~<-chan T, T any](site string, c C) (T, bool) {
 
 // Send is `c <- v`.
 func Send[C ~chan T | ~chan<- T, T any](site string, c C, v T) {
-	t := Pre(site)
-	defer Post(t)
-	c <- v
+	Ch(c).Send(site, v)
 }
 
 // Sender is the typed handle used for instrumented send statements: the element
@@ -36,6 +101,25 @@ func Ch[C ~chan T | ~chan<- T, T any](c C) Sender[T] { return Sender[T]{c: (chan
 // Send is `c <- v`.
 func (s Sender[T]) Send(site string, v T) {
 	t := Pre(site)
+	if t != nil && isForeign(s.c) {
+		var d time.Duration
+		for {
+			sent := func() bool {
+				defer Post(t)
+				select {
+				case s.c <- v:
+					return true
+				default:
+					return false
+				}
+			}()
+			if sent {
+				return
+			}
+			pollPause(&d)
+			t = Pre(site)
+		}
+	}
 	defer Post(t) // also when the send panics (channel closed meanwhile): park before unwinding further
 	s.c <- v
 }
@@ -48,11 +132,20 @@ func Close[C ~chan T | ~chan<- T, T any](site string, c C) {
 
 // Sel drives one execution of an instrumented select statement.
 type Sel struct {
-	t     *Task
-	site  string
-	tries []func() bool
-	masks []func()
-	sim   *Sim
+	t       *Task
+	site    string
+	tries   []func() bool
+	masks   []func()
+	sim     *Sim
+	foreign bool // a case uses a channel made outside the simulation
+	deflt   bool // the select has a default clause
+}
+
+// HasDefault tells the driver that the select statement has a default clause.
+func (s *Sel) HasDefault() {
+	if s != nil {
+		s.deflt = true
+	}
 }
 
 // NewSel starts an instrumented select.
@@ -72,6 +165,7 @@ func SelRecv[C ~chan T | ~<-chan T, T any](s *Sel, c C) *C {
 	if s == nil {
 		return h
 	}
+	s.foreign = s.foreign || isForeign(c)
 	s.tries = append(s.tries, func() bool {
 		select {
 		case v, ok := <-c:
@@ -112,6 +206,7 @@ func SelSend[C ~chan T | ~chan<- T, T any](s *Sel, c C) *SendCase[C, T] {
 	if s == nil {
 		return sc
 	}
+	s.foreign = s.foreign || isForeign(c)
 	s.tries = append(s.tries, func() (fired bool) {
 		select {
 		case c <- sc.v:
@@ -153,13 +248,26 @@ func (s *Sel) Poll() {
 		order = s.sim.Tape.Perm(n)
 		s.sim.mu.Unlock()
 	}
-	for _, i := range order {
-		if s.tries[i]() {
-			for j := range s.masks {
-				if j != i {
-					s.masks[j]()
+	var d time.Duration
+	for {
+		for _, i := range order {
+			if s.tries[i]() {
+				for j := range s.masks {
+					if j != i {
+						s.masks[j]()
+					}
 				}
+				return
 			}
+		}
+		if !s.foreign || s.deflt {
+			return // the real select blocks (all its channels belong to the bubble) or takes its default
+		}
+		// a case waits on a foreign channel: the real select must not block on it
+		Post(s.t)
+		pollPause(&d)
+		s.t = s.sim.pre(s.site)
+		if s.t == nil {
 			return
 		}
 	}
